@@ -45,6 +45,8 @@ Clauses
   connect-refused-missing ... and it does complete (when the loop ran and was not stopped)
   connect-not-refused    target held by a listening acceptor -> never refused / not_avail /
                      af_no_support / in_use
+  accept-wrong-endpoint  (black box) the connection an accept_ep hands out was dialled to the endpoint
+                     its acceptor holds (matched through the peer endpoint reported; skipped behind NAT)
   accept-by-unbound  an accept completes with success only if its acceptor held a listening
                      binding at that virtual instant (a connect is never accepted by an
                      acceptor that no longer holds the binding)
@@ -129,6 +131,8 @@ class Ref:
         self.next_port = 2000
         self.socks = {}
         self.handlers = {}
+        self.gone = {}
+        self.dialled = {}           # connector's endpoint -> (target endpoint, description) of its latest connect
         self.now = 0
         self.fails = []
         self.run_seen_after = {}    # handler id -> an `R` line was seen after the op was started
@@ -208,6 +212,8 @@ class Ref:
         s = self.socks.pop(name, None)
         if s is not None:
             self.release(s)
+            s.open = False; s.listening = False
+            self.gone[name] = s       # kept for `last_held_t` (a hand-over in the very instant of the destruction)
 
     # ---------------------------------------------------------------- C lines
     def on_call(self, idx, ctx, op, result):
@@ -222,6 +228,9 @@ class Ref:
             return
         where = "line %d `%s`" % (idx, " ".join(op))
         if m == "new":
+            old = self.socks.get(name)
+            if old is not None and old.holds():
+                old.last_held_t = self.now; old.last_ep = old.bound
             self.destroy(name)
             self.socks[name] = Sock(name, kind, op[1] if len(op) > 1 else "")
             return
@@ -355,6 +364,8 @@ class Ref:
                     exp["want"] = None          # listen state inherited through a re-open: not C11's business
                 else:
                     exp["want"] = "accepted"; exp["why"] = "%s holds %s and is listening" % (owner, fmt_ep(tgt))
+            if s.bound is not None:
+                self.dialled[s.bound] = (tgt, where)
             if h in self.handlers and self.handlers[h].get("kind") in ("connect", "accept"):
                 self.handlers[h] = dict(kind="ambiguous")
             else:
@@ -377,7 +388,7 @@ class Ref:
             self.handlers[h] = e
 
     # ---------------------------------------------------------------- H lines
-    def on_handler(self, idx, h, t, ec):
+    def on_handler(self, idx, h, t, ec, peer_ep=None):
         e = self.handlers.pop(h, None)
         if e is None or e["kind"] == "ambiguous":
             return
@@ -400,6 +411,9 @@ class Ref:
                     self.fail("connect-bind-error", "%s (t=%d) completed with %s at t=%d, expected at once" % (e["where"], e["t"], ec, t))
         elif e["kind"] == "accept":
             acc = self.socks.get(e["acc"])
+            destroyed = acc is None
+            if destroyed:
+                acc = self.gone.get(e["acc"])
             if e["new"]:
                 self.destroy(e["peer"])
                 peer = Sock(e["peer"], "s", acc.node if acc is not None else "")
@@ -416,10 +430,18 @@ class Ref:
             elif acc is not None and acc.last_held_t == t:
                 ep = acc.last_ep       # gave the binding up within this very instant, after the hand-over
             else:
-                st = "destroyed" if acc is None else "open=%s bound=%s listening=%s" % (acc.open, fmt_ep(acc.bound) if acc.bound else "-", acc.listening)
+                st = "destroyed" if destroyed or acc is None else "open=%s bound=%s listening=%s" % (acc.open, fmt_ep(acc.bound) if acc.bound else "-", acc.listening)
                 self.fail("accept-by-unbound", "%s completed with ok at t=%d but acceptor %s holds no listening binding (%s)" % (e["where"], t, e["acc"], st))
                 if acc is not None:
                     ep = acc.bound or acc.last_ep
+            # black box: whose connect was this? (accept_ep reports the connector's endpoint; behind a
+            # NAT it is the external one and matches nothing here)
+            pe = parse_ep(peer_ep) if peer_ep else None
+            if pe is not None and pe in self.dialled and ep is not None:
+                tgt, cwhere = self.dialled[pe]
+                if tgt != ep:
+                    self.fail("accept-wrong-endpoint", "%s completed at t=%d with the connection from %s, which was dialled to %s (%s), but acceptor %s holds %s" % (
+                        e["where"], t, fmt_ep(pe), fmt_ep(tgt), cwhere, e["acc"], fmt_ep(ep)))
             if peer is not None:
                 # tcp::socket::internal_connect: re-open (keeps the family flag), then adopt the
                 # acceptor's endpoint WITHOUT a registry entry
@@ -466,7 +488,7 @@ def replay(impl, scn):
             except ValueError: t = ref.now
             ref.now = t
             if len(tk) > 1:
-                ref.on_handler(idx, tk[1], t, d.get("ec", "?"))
+                ref.on_handler(idx, tk[1], t, d.get("ec", "?"), d.get("ep"))
         elif tag == "R":
             d = _kv(ln.split())
             try: ref.now = int(d.get("t", ref.now))
